@@ -1,6 +1,7 @@
 import LiquidVerif.Lemmas.TaintRender
 import LiquidVerif.Lemmas.TaintEntRender
 import LiquidVerif.Lemmas.TaintNoop
+import LiquidVerif.Lemmas.TaintNoopSim3
 /-!
 # C05 — autoescape keeps render data from injecting HTML
 
@@ -189,6 +190,40 @@ theorem autoescape_noop_on_clean_partial :
         (replaceT first s old new).chars = (if first then replaceFirst else replaceAll) old.chars new.chars s.chars) :=
   ⟨fun _ h => ⟨escape_noop h, htmlEscape_noop h⟩, fun _ => outVal_noop, fun _ _ => mixAdd_noop, fun _ _ => joinT_noop,
    fun f s old _ => replaceT_noop f s old⟩
+
+/-- **Third sentence — every filter.** With autoescape on and off, an admitted filter (`FName.noopOk`: every modelled filter
+except the *observing* `size slice truncate truncatewords split remove* replace*`, the *decoding* `url_decode base64_decode
+base64_url_safe_decode`, the HTML-generating `newline_to_br`, and `squish`) gives the same characters on values that contain none of
+`< > ' " &`: the off-run on the flag-free values is the flag-free image of the on-run (`SimR`), errors included. -/
+theorem filter_noop_on_clean (P : Prims) (hP : PClean P) (f : FName) (v : Val) (args : List Val)
+    (hf : f.noopOk = true) (hv : v.NoSp) (ha : ∀ a ∈ args, a.NoSp) :
+    SimR (applyFilter P true f v args) (applyFilter P false f v.plain (args.map Val.plain)) :=
+  applyFilter_sim hP hf hv ha
+
+/-- **Third sentence — templates `{{ head | f₁ | … | fₙ }}` with chains of any length.** If the render data `d` and the literals
+contain none of the five characters and every filter is admitted, rendering with autoescape off (on the same data without Markup
+flags) and with autoescape on give the same result — the same output, or the same error. The opaque text functions must not
+introduce specials on special-free input (`PClean`; for the real `str(list)` that holds of the empty list only).
+Not covered by a theorem: templates with several statements / block tags (checked by the on-off oracle on every generated case). -/
+theorem autoescape_noop_on_clean (P : Prims) (hP : PClean P) (h : Arg) (fs : List FCall) (d : Env)
+    (hh : h.noSp = true) (hfs : fs.all FCall.noopOk = true) (hd : EnvNoSp d) :
+    render P false [.output (.chain h fs)] (Env.plain d) = render P true [.output (.chain h fs)] d := by
+  rw [render_single, render_single]
+  have hi : St.NoSp ⟨[], [], d, [], []⟩ := ⟨fun e he => (by cases he), fun p hp => (by cases hp), hd⟩
+  have ha := evalArg_sim hi hh
+  have hs := applyChain_sim hP hi hfs ha.2
+  have hst : (⟨[], [], Env.plain d, [], []⟩ : St) = St.plain ⟨[], [], d, [], []⟩ := rfl
+  simp only [evalExpr]
+  rw [hst, ha.1]
+  generalize applyChain P true ⟨[], [], d, [], []⟩ fs (evalArg true ⟨[], [], d, [], []⟩ h) = ron at hs
+  generalize applyChain P false (St.plain ⟨[], [], d, [], []⟩) fs (evalArg true ⟨[], [], d, [], []⟩ h).plain = roff at hs
+  cases ron <;> cases roff <;> simp only [SimR] at hs
+  · subst hs; rfl
+  · obtain ⟨h1, h2⟩ := hs; subst h1; simp only [outVal_noop h2]
+
+/-- Non-vacuity: a chain of five admitted filters on special-free data and literals. -/
+example : ([⟨.append, [.lit "-x".toList]⟩, ⟨.upcase, []⟩, ⟨.escape, []⟩, ⟨.strip, []⟩, ⟨.default, [.lit "d".toList]⟩] : List FCall).all
+    FCall.noopOk = true := by decide
 
 example : NoSp "plain text, 100% fine; a+b".toList := isNoSp_iff.mp (by decide)
 
